@@ -88,12 +88,19 @@ def parse_telegram_url(url):
     if not is_telegram_url(url):
         return None
 
-    parsed = safe_urlsplit(url)
+    try:
+        parsed = safe_urlsplit(url)
+    except ValueError:
+        return None
+
     path = pathsplit(parsed.path)
 
     if path:
 
         if path[0] == "s":
+
+            if len(path) < 2:
+                return None
 
             if path[1] == "joinchat":
                 if len(path) == 3:
